@@ -398,7 +398,7 @@ CHECK_DEADLOCK FALSE
 def scripted_behaviours(res, scratch):
     """Behaviours of Api.tla under the two scripts, enumerated exhaustively by TLC (breadth-first)."""
     out = []
-    for sp in ("SpecTwo", "SpecOne", "SpecFlags"):
+    for sp in ("SpecTwo", "SpecOne", "SpecFlags", "SpecModes"):
         cfg = api_cfg([1, 2], 12, [1], [3], [0], ["TypeOK"]).replace("SPECIFICATION Spec", "SPECIFICATION " + sp)
         ts = run_tlc(scratch, "Api", cfg, "api_" + sp, timeout=1500)
         if ts["status"] != "ok":
@@ -1373,7 +1373,7 @@ def mp_trace_part(res, scratch, tier, seed, builds, prop, ones):
     def work(args):
         i, ch = args
         return validate_trace(scratch, "MpTrace", ch, "mp_tr%d" % i, timeout=3000), ch
-    ndiag = nev = 0
+    ndiag = nev = nfork = 0
     with cf.ThreadPoolExecutor(max_workers=max(1, NCPU // 2)) as ex:
         for (ok, rej, tt), ch in ex.map(work, list(enumerate(chunks))):
             if not ok:
@@ -1384,10 +1384,13 @@ def mp_trace_part(res, scratch, tier, seed, builds, prop, ones):
             nev += sum(len(ln["mp"]) for ln in ch)
             for (lno, lid, reasons) in rej:
                 for reason in reasons:
-                    if reason.startswith("DIAG"):
+                    if reason.startswith("DIAG") and "fork missing" in reason:
+                        nfork += 1
+                    elif reason.startswith("DIAG"):
                         ndiag += 1
                     else:
                         res.violation("trace|" + reason, {"line": ch[lno - 1], "reason": reason})
+    res.notes["drift_walk_lines_with_a_missing_fork"] = nfork
     res.notes["walk_events_validated"] = res.notes.get("walk_events_validated", 0) + nev
     res.notes["walk_lines_not_usable"] = res.notes.get("walk_lines_not_usable", 0) + skipped
     res.notes["drift_walk_lines_not_taking_every_reduction_with_all_parses"] = ndiag
